@@ -168,6 +168,7 @@ type c34Out struct {
 	closed   int
 	panicked bool
 	faultAsSuccess bool // a Read error/panic happened and Write+Flush still reported success
+	readBacks      int  // how often the written message was decoded again by fasthttp's own readers
 }
 
 func (o *c34Out) add(sym, format string, a ...any) {
@@ -460,6 +461,9 @@ func c34Write(c *c34Case, m *c34Msg, st *c34Stream, o *c34Out) {
 		if decl < 0 && !w.Chunked {
 			o.add("unknown-size-not-chunked", "stream of unknown size is not sent chunked")
 		}
+		if c.Fault == "none" {
+			c34ReadBack(c, out, w.Body, o)
+		}
 		return
 	}
 	// ---- Write or Flush failed: whatever reached the wire must still be a prefix of what the stream produced, and a
@@ -481,6 +485,61 @@ func c34Write(c *c34Case, m *c34Msg, st *c34Stream, o *c34Out) {
 		got := c34LenientChunks(raw)
 		if !bytes.HasPrefix(produced, got) {
 			o.add("failed-write-wire-not-a-prefix", "chunk data on the wire is not a prefix of the produced bytes")
+		}
+	}
+}
+
+// c34ReadBack feeds the written message to fasthttp's own readers (buffered and streaming) under different network
+// read splits: they must decode the same payload the independent decoders found (chunked reading for any chunk split).
+func c34ReadBack(c *c34Case, out, want []byte, o *c34Out) {
+	for _, split := range []int{0, 4095, 3} {
+		if split == 3 && len(out) > 5000 {
+			continue
+		}
+		chunks := [][]byte{out}
+		if split > 0 {
+			chunks = vnet.Dribble(out, split)
+		}
+		for _, streaming := range []bool{false, true} {
+			br := bufio.NewReaderSize(vnet.NewConn(chunks...), 4096)
+			var got []byte
+			var err error
+			if c.Side == "resp" {
+				var r Response
+				r.StreamBody = streaming
+				if err = r.Read(br); err == nil {
+					if bs := r.BodyStream(); streaming && bs != nil {
+						got, err = io.ReadAll(bs)
+						r.CloseBodyStream() //nolint:errcheck
+					} else {
+						got = append(got, r.Body()...)
+					}
+				}
+				r.Reset()
+			} else {
+				var q Request
+				if streaming {
+					if err = q.Header.Read(br); err == nil {
+						err = q.readBodyStream(br, DefaultMaxRequestBodySize, false, true)
+					}
+					if err == nil {
+						if bs := q.BodyStream(); bs != nil {
+							got, err = io.ReadAll(bs)
+							q.CloseBodyStream() //nolint:errcheck
+						}
+					}
+				} else if err = q.Read(br); err == nil {
+					got = append(got, q.Body()...)
+				}
+				q.Reset()
+			}
+			o.readBacks++
+			mode := fmt.Sprintf("streaming=%v", streaming)
+			if err != nil {
+				o.add("own-reader-rejects-written-message:"+mode, "fasthttp's reader fails on the message fasthttp wrote (read split %d): %v", split, err)
+			} else if !bytes.Equal(got, want) {
+				o.add("own-reader-decodes-different-bytes:"+mode, "fasthttp's reader decodes %d bytes, the wire carries %d (read split %d, first difference at %d)", len(got), len(want), split, c34Diff(got, want))
+			}
 		}
 	}
 }
@@ -614,6 +673,7 @@ func c34ExecWriter(c *c34Case, o *c34Out) {
 			if w.End != len(out) {
 				o.add("bytes-after-message", "%d bytes follow the message", len(out)-w.End)
 			}
+			c34ReadBack(c, out, w.Body, o)
 		case "reset":
 			m.reset()
 		case "release":
@@ -858,6 +918,7 @@ func TestVerif_C34(t *testing.T) {
 			if c.WErr > 0 {
 				local["cases_with_injected_write_error"]++
 			}
+			local["written_messages_read_back_by_fasthttp_readers"] += int64(o.readBacks)
 			if o.faultAsSuccess {
 				local["observed_read_fault_reported_as_success_"+c.Side+map[bool]string{true: "_gzip", false: ""}[c.Gzip]]++
 			}
